@@ -56,7 +56,7 @@ def do_query(m, ref, medges, eid, sort_on, q, ctx, where):
     C = m.connectivity
     nV, nF, nC = ref.nV, len(ref.F), ref.nC
     sig = "q:" + kind
-    np_ids = bool(ctx.case.get("np_ids"))
+    np_ids = bool((getattr(ctx, "case", None) or {}).get("np_ids"))
 
     def call(f, *args):
         if np_ids:
